@@ -132,7 +132,7 @@ def attr_programs(ctx):
 
 def place_effect_attrs(rng, p):
     """serde attributes with an observable effect, at random places of all three forwarding routes."""
-    eff = {"deny": [], "alias": [], "default": []}
+    eff = {"deny": [], "alias": [], "default": [], "upper": []}
     for part in p["parts"]:
         kinds = ["instantiate", "migrate", "exec", "query", "sudo"] if part["id"] == "c" else ["exec", "query", "sudo"]
         part["msg_attrs"] = []
@@ -142,6 +142,10 @@ def place_effect_attrs(rng, p):
             if rng.random() < 0.35:
                 part["msg_attrs"].append((k, "serde(deny_unknown_fields)"))
                 eff["deny"].append((part["id"], k))
+            if k in ("exec", "query", "sudo") and rng.random() < 0.25:
+                # changes the keys of the arguments, not the names of the messages
+                part["msg_attrs"].append((k, "serde(rename_all_fields = \"SCREAMING_SNAKE_CASE\")"))
+                eff["upper"].append((part["id"], k))
         for h in part["handlers"]:
             if h["kind"] in ("exec", "query", "sudo") and rng.random() < 0.35:
                 alias = "alias_" + h["hid"].replace(".", "_") + "_zz"
